@@ -280,8 +280,9 @@ theorem parse_print_surface_counterexample_path :
 `skipGap` is what `Lexer::read_input` does before every token.  A `Gap` is any sequence of
 runs of white space and comments (`// …` closed by a line feed, or `/* … */`).
 (That two layouts of one token list lex to the same tokens needs, beyond this, the token
-recognisers of `read_next_token`; those are compared by the correspondence only — see
-finding F21 for a keyword directly followed by a comment.) -/
+recognisers of `read_next_token`; those are compared by the correspondence only.  For the
+keywords that white space must follow, `read_input` writes the first character of a comment
+into its look-ahead buffer as white space, so a comment ends such a keyword too.) -/
 
 /-- Whatever gap stands before it, the lexer resumes exactly at the next token. -/
 theorem layout_gap_skipped (g : Gap) (rest : List Nat) (hg : gapOk g = true)
